@@ -18,9 +18,9 @@ from sqlcase import RL, DISK_LAYOUTS, ms, ordered_equal, norm_rows
 
 TYPES = ("INT", "BIGINT", "BOOLEAN", "VARCHAR", "DOUBLE", "DECIMAL(10,2)", "DATE")
 FEATURES = dict(full_join=False, not_in_sub=False, like=True, bool_col_cond=False, offset_no_limit=True,
-                case_no_else=True, corr_in_sub=False, null_lit=True, cross=True, derived_limit=True, avg=True)
+                case_no_else=True, corr_in_sub=False, null_lit=True, cross=True, derived_limit=True, avg=True, unordered_limit=True)
 # Leg B runs the unoptimized bound plan, which cannot contain subqueries
-FEATURES_B = dict(FEATURES, in_sub=False, exists=False, not_exists=False, scalar_sub=False, cte=False)
+FEATURES_B = dict(FEATURES, in_sub=False, exists=False, not_exists=False, scalar_sub=False, cte=False, unordered_limit=False)
 
 
 def make_db(rng, engine_bias=0.5):
@@ -43,6 +43,8 @@ def setup(rl, stmts):
 
 
 def compare(a, b, order):
+    if order == "count":   # LIMIT without ORDER BY: the number of rows is determined, which rows is not
+        return len(a) == len(b)
     return ordered_equal(a, b, order) if order else ms(a) == ms(b)
 
 
@@ -106,7 +108,8 @@ def run_case_a(args):
         g = QueryGen(rng, tables, FEATURES)
         for _ in range(nq):
             q = g.query()
-            v, compared, ref_failed, opt = judge_query(rl, q.sql, q.order)
+            order = "count" if q.count_only else q.order
+            v, compared, ref_failed, opt = judge_query(rl, q.sql, order)
             res["evals"] += 1
             if v == "dead":
                 res["inconclusive"] = "runner died"
@@ -116,7 +119,7 @@ def run_case_a(args):
             res["compared"] += compared
             res["ref_failed"] += ref_failed
             if v:
-                v["concrete"] = dict(leg="A", setup=stmts, engine=engine, layout=layout, sql=q.sql, order=q.order)
+                v["concrete"] = dict(leg="A", setup=stmts, engine=engine, layout=layout, sql=q.sql, order=order)
                 res["violations"].append(v)
             elif compared and opt.get("rows") and fired_nontrivial(opt):
                 res["nontrivial"].append(h(q.sql))
@@ -187,7 +190,7 @@ def sentinel(w):
         try:
             if setup(rl, w["setup"]):
                 return []
-            v, _, _, _ = judge_query(rl, w["sql"], [tuple(x) for x in (w.get("order") or [])])
+            v, _, _, _ = judge_query(rl, w["sql"], "count" if w.get("order") == "count" else [tuple(x) for x in (w.get("order") or [])])
             if isinstance(v, dict):
                 return [(w.get("fixed_signature") or v["signature"], v["what"])]
             return []
@@ -261,7 +264,7 @@ def run(tier, seed):
     rep.floor("rules with a validated single-rule rewrite", len(validated), 60)
     rep.assumptions = ["the unoptimized execution is the reference; queries it cannot run (subqueries) have no reference in leg A",
                        "an intermediate single-rule result that the executor cannot run is inconclusive, not a violation",
-                       "LIMIT is only generated under a total order; SUM over DOUBLE is not generated"]
+                       "LIMIT is generated under a total order, or without any ORDER BY (then only the number of rows is compared); SUM over DOUBLE is not generated"]
     return rep.finish()
 
 
